@@ -65,6 +65,7 @@ var thePKI = func() *pki {
 }()
 
 type mxObs struct {
+	unarmed    int // dialed connections on which no deadline was ever armed
 	mu         sync.Mutex
 	dials      []string // "<fn> <addr>"
 	connects   []string // CONNECT targets seen by the http(s) proxy, with " auth=<value>"
@@ -343,6 +344,11 @@ func runMatrixCell(cfg mxCfg) (o *mxObs, conn *websocket.Conn, err error, panick
 		} else {
 			o.leftOpen++
 		}
+		raws[i].(*aconn).dmu.Lock()
+		if !raws[i].(*aconn).armed {
+			o.unarmed++
+		}
+		raws[i].(*aconn).dmu.Unlock()
 	}
 	// close the raw pipe ends: closing through nested tls.Conns would wait for close_notify exchanges
 	// that a synchronous net.Pipe cannot complete
@@ -434,6 +440,11 @@ func runMatrixScenario(seed int64, idx int) *scenario {
 	// C16: a failed Dial leaves no dialed connection open; a successful one keeps exactly its own
 	if !okDial && o.leftOpen > 0 {
 		sc.violate("Dial failed (%v) but left %d of %d dialed network connections open", err, o.leftOpen, o.leftOpen+o.selfClosed)
+	}
+	if okDial && o.unarmed > 0 {
+		// C16: HandshakeTimeout is set in every cell: the opening handshake ran on each dialed connection
+		// under a deadline, whichever dial function produced it
+		sc.violate("successful Dial with HandshakeTimeout set: no deadline was ever armed on %d of the dialed connections (first hop %v)", o.unarmed, o.dials)
 	}
 	if okDial && (o.leftOpen != 1 || o.selfClosed != 0) {
 		sc.violate("successful Dial: %d dialed connections open, %d closed; expected exactly its own one open", o.leftOpen, o.selfClosed)
@@ -618,6 +629,7 @@ type aconn struct {
 	deadline time.Time
 	dmu      sync.Mutex
 	self     bool // Close was called on this end
+	armed    bool // a non-zero deadline was set on this end at some point
 }
 
 func (c *aconn) closedHere() bool { c.dmu.Lock(); defer c.dmu.Unlock(); return c.self }
@@ -685,6 +697,9 @@ func (c *aconn) RemoteAddr() net.Addr { return tAddr{} }
 func (c *aconn) SetDeadline(t time.Time) error {
 	c.dmu.Lock()
 	c.deadline = t
+	if !t.IsZero() {
+		c.armed = true
+	}
 	c.dmu.Unlock()
 	c.rd.mu.Lock()
 	c.rd.cond.Broadcast()
